@@ -168,6 +168,11 @@ func c11PipelineDoc(ctx *core.Ctx) (map[string]any, string) {
 		return s
 	}
 	d := m{"name": "proj", "services": m{"a": svc(), "b": svc(), "x.y": svc()}}
+	if r.Intn(2) == 0 {
+		// a service whose key looks like an extension is a service: every stage treats it like `a`
+		d["services"].(map[string]any)["x-ray"] = svc()
+		ctx.Count("pipeline:x-service")
+	}
 	put(d, "networks", pick(r, optPTopNets))
 	put(d, "volumes", pick(r, optPTopVols))
 	kind := "pipeline:valid-shapes"
